@@ -674,7 +674,7 @@ func init() {
 		t := T(tname)
 		reg(kind, t, weight, func(u *Universe) Cmd {
 			v, d := f(u)
-			return Cmd{PB: mk(t, ext, v), Desc: kind + " " + d}
+			return Cmd{PB: mk(t, ext, v), Desc: kind + " " + d, Text: modelText(v)}
 		})
 	}
 	un("CreateSubscription", "CreateSubscriptionCommand", 2, proto2.E_CreateSubscriptionCommand_Command, func(u *Universe) (interface{}, string) {
@@ -894,6 +894,45 @@ func init() {
 		}
 		return &proto2.RecoverMetaDataCommand{Databases: dbs, MetaData: []byte(md), NodeMap: map[uint64]uint64{1: 1, 2: 2}}, fmt.Sprint(dbs, " ", len(md))
 	})
+}
+
+// modelText renders a command of the second model layer (OG/Meta/Model2.lean) as the text the
+// Lean driver parses ("" = not in the model). In the modelled mode the command is rebuilt from
+// this text (FromText), so that the implementation and the model are driven by the same thing.
+func modelText(v interface{}) string {
+	switch c := v.(type) {
+	case *proto2.UpdateIndexInfoTierCommand:
+		return fmt.Sprintf("UpdateIndexInfoTier %d %d %s %s", c.GetIndexID(), c.GetTier(), tok(c.GetDbName()), tok(c.GetRpName()))
+	case *proto2.UpdatePtVersionCommand:
+		return fmt.Sprintf("UpdatePtVersion %s %d", tok(c.GetDb()), c.GetPt())
+	case *proto2.ReShardingCommand:
+		return fmt.Sprintf("ReSharding %s %s %d %d %d", tok(c.GetDatabase()), tok(c.GetRpName()), c.GetShardGroupID(), c.GetSplitTime(), len(c.GetShardBounds()))
+	case *proto2.ExpandGroupsCommand:
+		return "ExpandGroups"
+	case *proto2.MarkTakeoverCommand:
+		return "MarkTakeover " + b01(c.GetEnable())
+	case *proto2.MarkBalancerCommand:
+		return "MarkBalancer " + b01(c.GetEnable())
+	case *proto2.CreateSubscriptionCommand:
+		return fmt.Sprintf("CreateSubscription %s %s %s", tok(c.GetName()), tok(c.GetDatabase()), tok(c.GetRetentionPolicy()))
+	case *proto2.DropSubscriptionCommand:
+		return fmt.Sprintf("DropSubscription %s %s %s", tok(c.GetName()), tok(c.GetDatabase()), tok(c.GetRetentionPolicy()))
+	case *proto2.CreateContinuousQueryCommand:
+		return fmt.Sprintf("CreateContinuousQuery %s %s %s", tok(c.GetDatabase()), tok(c.GetName()), strings.ReplaceAll(c.GetQuery(), " ", "_"))
+	case *proto2.DropContinuousQueryCommand:
+		return fmt.Sprintf("DropContinuousQuery %s %s", tok(c.GetName()), tok(c.GetDatabase()))
+	case *proto2.ContinuousQueryReportCommand:
+		if len(c.GetCQStates()) == 1 {
+			return fmt.Sprintf("ContinuousQueryReport %s %d", tok(c.CQStates[0].GetName()), c.CQStates[0].GetLastRunTime())
+		}
+	case *proto2.CreateStreamCommand:
+		si := c.GetStreamInfo()
+		return fmt.Sprintf("CreateStream %s %s %s %s %s %s %s %d", tok(si.GetName()), tok(si.SrcMst.GetDatabase()), tok(si.SrcMst.GetRetentionPolicy()), tok(si.SrcMst.GetName()),
+			tok(si.DesMst.GetDatabase()), tok(si.DesMst.GetRetentionPolicy()), tok(si.DesMst.GetName()), si.GetInterval())
+	case *proto2.DropStreamCommand:
+		return "DropStream " + tok(c.GetName())
+	}
+	return ""
 }
 
 // Bootstrap returns a short valid prologue: data nodes, a database with a policy, its
